@@ -528,14 +528,81 @@ func elementRule(tag string, levels int) string {
 	return tag
 }
 
+// violT is one validator error: its tag and the paths whose values printing e.Value() reveals.
+type violT struct {
+	tag   string
+	shows []string
+}
+
+// showsOf lists base and the path of everything nested in v (struct fields by json name, slice
+// and array elements by index, map entries by key).
+func showsOf(base string, v reflect.Value, depth int, out *[]string) {
+	*out = append(*out, base)
+	if depth > 100 {
+		return
+	}
+	for v.Kind() == reflect.Pointer || v.Kind() == reflect.Interface {
+		if v.IsNil() {
+			return
+		}
+		v = v.Elem()
+	}
+	switch v.Kind() {
+	case reflect.Struct:
+		t := v.Type()
+		for i := 0; i < t.NumField(); i++ {
+			name, _, _ := strings.Cut(t.Field(i).Tag.Get("json"), ",")
+			if name == "" || name == "-" {
+				name = t.Field(i).Name
+			}
+			showsOf(base+"."+name, v.Field(i), depth+1, out)
+		}
+	case reflect.Slice, reflect.Array:
+		for i := 0; i < v.Len(); i++ {
+			showsOf(base+"."+strconv.Itoa(i), v.Index(i), depth+1, out)
+		}
+	case reflect.Map:
+		for _, k := range v.MapKeys() {
+			showsOf(base+"."+fmt.Sprint(k), v.MapIndex(k), depth+1, out)
+		}
+	}
+}
+
+func violOf(path string, e validator.FieldError) violT {
+	var sh []string
+	showsOf(path, reflect.ValueOf(e.Value()), 0, &sh)
+	sort.Strings(sh)
+	return violT{e.Tag(), uniq(sh)}
+}
+
 type ruleT struct {
 	path      string
 	resolves  bool
-	tags      []string
+	tags      []violT
 	num       bool
 	cresolves bool
 	cpanic    bool
 	ctags     []string
+}
+
+// varViols runs validator.Var under the path's own rule.
+func varViols(path string, v reflect.Value, tag string) (out []violT, panicked bool) {
+	defer func() {
+		if p := recover(); p != nil {
+			out, panicked = nil, true
+		}
+	}()
+	err := ownValidator.Var(v.Interface(), tag)
+	if err == nil {
+		return nil, false
+	}
+	var verrs validator.ValidationErrors
+	if errors.As(err, &verrs) {
+		for _, e := range verrs {
+			out = append(out, violOf(path, e))
+		}
+	}
+	return out, false
 }
 
 // varTags runs validator.Var and returns the tags it reports; panicked = Var panicked.
@@ -625,7 +692,7 @@ func ruleFor(root reflect.Value, path string) ruleT {
 		own = elementRule(fieldTag, levels)
 	}
 	if own != "" {
-		tags, panicked := varTags(val, own)
+		tags, panicked := varViols(path, val, own)
 		if panicked {
 			// the generator only pairs tags with kinds they apply to; a panic here is a harness bug
 			panic(fmt.Sprintf("own rule %q panics on %v at %q", own, val.Type(), path))
@@ -645,7 +712,12 @@ func ruleFor(root reflect.Value, path string) ruleT {
 // the StructNamespace (Go field names, "Items[0].Name") through the type: json names joined with
 // ".", an index as a segment of its own ("items.0.name"). The path as shipped (before the repair of
 // K05e) is the lower-cased Namespace without the top struct name ("items[0].name").
-func fullErrs(ptr any, t reflect.Type) (out [][3]string, ok bool) {
+type fullT struct {
+	path, apath string
+	v           violT
+}
+
+func fullErrs(ptr any, t reflect.Type) (out []fullT, ok bool) {
 	err := ownValidator.Struct(ptr)
 	if err == nil {
 		return nil, true
@@ -663,7 +735,8 @@ func fullErrs(ptr any, t reflect.Type) (out [][3]string, ok bool) {
 		if t.Name() != "" {
 			sns = strings.TrimPrefix(sns, t.Name()+".")
 		}
-		out = append(out, [3]string{jsonPathOf(sns, t), strings.ToLower(ns), e.Tag()})
+		jp := jsonPathOf(sns, t)
+		out = append(out, fullT{jp, strings.ToLower(ns), violOf(jp, e)})
 	}
 	return out, true
 }
@@ -953,19 +1026,25 @@ func emit(id string, c caseT, st *hx.Stats) string {
 	l.Tok("R").Nat(len(rules))
 	elemRule, contPanic := false, false
 	for _, r := range rules {
-		l.Str(r.path).Bool(r.resolves).Strs(r.tags).Bool(r.num).Bool(r.cresolves).Bool(r.cpanic).Strs(r.ctags)
+		l.Str(r.path).Bool(r.resolves).Nat(len(r.tags))
+		var tagNames []string
+		for _, t := range r.tags {
+			l.Str(t.tag).Strs(t.shows)
+			tagNames = append(tagNames, t.tag)
+		}
+		l.Bool(r.num).Bool(r.cresolves).Bool(r.cpanic).Strs(r.ctags)
 		if len(r.tags) > 1 || len(r.ctags) > 1 {
 			single = false
 		}
 		violations += len(r.tags)
-		if r.cresolves && (r.resolves != r.cresolves || fmt.Sprint(r.tags) != fmt.Sprint(r.ctags)) {
+		if r.cresolves && (r.resolves != r.cresolves || fmt.Sprint(tagNames) != fmt.Sprint(r.ctags)) {
 			elemRule = true
 		}
 		if r.cpanic {
 			contPanic = true
 		}
 	}
-	var full [][3]string
+	var full []fullT
 	if c.Mode == 1 {
 		var ok bool
 		full, ok = fullErrs(ptr.Interface(), rt)
@@ -979,7 +1058,13 @@ func emit(id string, c caseT, st *hx.Stats) string {
 	if rd != nil {
 		cand := append([]string(nil), paths...)
 		for _, f := range full {
-			cand = append(cand, f[0], f[1])
+			cand = append(cand, f.path, f.apath)
+			cand = append(cand, f.v.shows...)
+		}
+		for _, r := range rules {
+			for _, t := range r.tags {
+				cand = append(cand, t.shows...)
+			}
 		}
 		sort.Strings(cand)
 		for _, p := range uniq(cand) {
@@ -991,7 +1076,7 @@ func emit(id string, c caseT, st *hx.Stats) string {
 	l.Tok("O").Nat(c.Mode).Nat(c.MaxErrors).Nat(c.MaxFields).Strs(red).Bool(single)
 	l.Tok("F").Nat(len(full))
 	for _, f := range full {
-		l.Str(f[0]).Str(f[1]).Str(f[2])
+		l.Str(f.path).Str(f.apath).Str(f.v.tag).Strs(f.v.shows)
 	}
 	in := l.String()
 
@@ -1123,6 +1208,9 @@ func fixedCases() []caseT {
 		{Body: `{"a":[[{"b":1}]]}`, T: userT},
 		{Body: `{"email":"x","pass_word":"abcdefg","age":9,"user":{"name":"ab","secret":"s3cr3t"}}`, Named: "FullA", Mode: 1, Redact: []string{"pass_word", "user.secret"}},
 		{Body: `{"email":"x","pass_word":"abcdefg","age":9}`, Named: "FullA", Mode: 1, MaxErrors: 2},
+		{Body: `{"userName":"abc","Owner":{"name":"abc"},"kidsList":[{"name":"abc"},{"name":"abc","secret":"q1_hunter2"}]}`, Named: "FullC", Mode: 1, Redact: []string{"kidsList.1.secret"}}, // K05f
+		{Body: `{"userName":"ab","apiKey":"q2_short","Owner":{"name":"abc"},"rows":[["a"]],"kidsList":[{"name":"abc"}]}`, Named: "FullC", Mode: 1, Redact: []string{"apiKey", "rows.0.0"}},        // K05e
+		{Body: `{"1":"abc","2":{"3":"x"}}`, T: &TypeT{Fields: []FieldT{{JSON: "1", Kind: "string", Tag: "email"}, {JSON: "2", Kind: "struct", Sub: &TypeT{Fields: []FieldT{{JSON: "3", Kind: "string", Tag: "min=2"}}}}}}}, // K05d
 	}
 }
 
